@@ -411,23 +411,65 @@ func Intact(tx *bt.Tx) func() error {
 // own and carries a canary in its spare capacity (see Canary).
 func ToLib(m Tx) *bt.Tx {
 	tx := &bt.Tx{Version: m.Version, LockTime: m.LockTime, Inputs: make([]*bt.Input, 0, len(m.In))}
-	for _, in := range m.In {
+	for n, in := range m.In {
 		i := &bt.Input{PreviousTxOutIndex: in.Vout, SequenceNumber: in.Seq, PreviousTxSatoshis: in.PrevSats}
 		if err := i.PreviousTxIDAdd(Canary(in.TxID)); err != nil {
 			panic("ref.ToLib: model with invalid txid: " + err.Error())
 		}
 		if !in.UnlockNil {
-			i.UnlockingScript = bscript.NewFromBytes(Canary(in.Unlock))
+			i.UnlockingScript = LibScript(in.Unlock, n+len(m.Out)+int(m.LockTime%7))
 		}
 		if !in.PrevNil {
-			i.PreviousTxScript = bscript.NewFromBytes(Canary(in.PrevScript))
+			i.PreviousTxScript = LibScript(in.PrevScript, n+len(m.In)+int(m.Version%5))
 		}
 		tx.Inputs = append(tx.Inputs, i)
 	}
-	for _, o := range m.Out {
-		tx.Outputs = append(tx.Outputs, &bt.Output{Satoshis: o.Sats, LockingScript: bscript.NewFromBytes(Canary(o.Script))})
+	for n, o := range m.Out {
+		tx.Outputs = append(tx.Outputs, &bt.Output{Satoshis: o.Sats, LockingScript: LibScript(o.Script, n+len(m.In)+int(m.LockTime%3))})
 	}
 	return tx
+}
+
+// LibScript builds the script object handed to the library: the bytes with a capacity canary
+// behind them; an EMPTY script is, for one salt in three, a non-nil script object holding a nil
+// slice (what new(bscript.Script) and bscript.NewFromBytes(nil) give) instead of an empty one.
+func LibScript(b []byte, salt int) *bscript.Script {
+	if len(b) == 0 && salt%3 == 1 {
+		return new(bscript.Script)
+	}
+	return bscript.NewFromBytes(Canary(b))
+}
+
+// ToLibVia is ToLib followed by one of the ways a program comes by a transaction object with that
+// content, chosen from the model itself: as built (field by field), Clone(), a clone of a clone,
+// or parsed from the extended serialisation (only when every input records its previous script).
+// The label names the way. Content is the same in all of them except that parsing and cloning
+// turn a nil unlocking script into an empty one.
+func ToLibVia(m Tx) (*bt.Tx, string) {
+	tx := ToLib(m)
+	for _, in := range m.In {
+		if len(in.TxID) != 32 {
+			return tx, "built"
+		}
+	}
+	switch (len(m.In)*3 + len(m.Out) + int(m.LockTime%11) + int(m.Version%2)) % 4 {
+	case 1:
+		return tx.Clone(), "cloned"
+	case 2:
+		return tx.Clone().Clone(), "cloned-twice"
+	case 3:
+		for _, in := range m.In {
+			if in.PrevNil {
+				return tx, "built"
+			}
+		}
+		p, err := bt.NewTxFromBytes(tx.ExtendedBytes())
+		if err != nil {
+			panic("ref.ToLibVia: the library does not parse its own extended serialisation: " + err.Error())
+		}
+		return p, "parsed-extended"
+	}
+	return tx, "built"
 }
 
 // FromLib reads a library object back into a model (nil scripts become empty).
